@@ -204,6 +204,53 @@ def conventional(rng, name, feat=None):
         lt.field("v", "fixed64", optional=True)
         msgs += [P + ".MutA", P + ".Aux.Inner.Deep"]
         tags.update(["deep-nesting", "mutual-recursion", "forward-ref"])
+    if feat.get("exotic") or feat.get("collide"):
+        # field names colliding with names the emitted types module itself binds: the imported sibling module
+        # (<name>_types), the proto-plus module `proto`, well-known module names; top-level and nested, each followed
+        # by a field that needs the shadowed name
+        # (the generator's collision set is per file: each colliding name is placed at ONE nesting level only, so that
+        # a set computed from the wrong level is exposed)
+        cm = f.message("Collide")
+        lv = {k: rng.choice(["top", "nested", "deeper"]) for k in ("proto", "types", "duration", "timestamp")}
+        tmod = f"{name}_types"
+        if lv["proto"] == "top":
+            cm.field("proto", "string")
+        cm.field("after_proto", P + ".Aux")
+        if nfiles > 1 and lv["types"] == "top":
+            cm.field(tmod, "string")
+        cm.field("after_types", P + ".Aux")
+        if lv["duration"] == "top":
+            cm.field("duration", ".google.protobuf.Duration")
+        if lv["timestamp"] == "top":
+            cm.field("timestamp", "string")
+        cm.field("later", ".google.protobuf.Timestamp")
+        cm.field("span", ".google.protobuf.Duration")
+        cn = cm.nested("Nested")
+        if lv["proto"] == "nested":
+            cn.field("proto", "int32")
+        if lv["duration"] == "nested":
+            cn.field("duration", ".google.protobuf.Duration")
+        cn.field("when", ".google.protobuf.Duration")
+        if nfiles > 1 and lv["types"] == "nested":
+            cn.field(tmod, "bool")
+        if lv["timestamp"] == "nested":
+            cn.field("timestamp", "string")
+        cn.field("after", P + ".Aux")
+        cn.field("at", ".google.protobuf.Timestamp")
+        cn.field("state", enums[0])
+        cd = cn.nested("Deeper")
+        if lv["timestamp"] == "deeper":
+            cd.field("timestamp", "string")
+        if lv["proto"] == "deeper":
+            cd.field("proto", "string")
+        if nfiles > 1 and lv["types"] == "deeper":
+            cd.field(tmod, "bytes")
+        if lv["duration"] == "deeper":
+            cd.field("duration", "string")
+        cd.field("ts", ".google.protobuf.Timestamp")
+        cd.field("dur", ".google.protobuf.Duration")
+        cd.field("aux", P + ".Aux", repeated=True)
+        tags.add("field-shadows-module")
     host = f"{name}.googleapis.com"
     svc_names = ["Main"] if rng.random() < 0.6 else ["Main", "Admin"]
     svcs = [f.service(n, host=host, scopes="https://www.googleapis.com/auth/cloud-platform") for n in svc_names]
